@@ -177,6 +177,22 @@ CHECKS = {
         "Trusted: mc/qref.py (textbook definitions, numpy kron/matmul), pytket unitaries. Tolerance 1e-9. "
         "Thorough tier strides depth-3 circuits (reported as a cap).",
         "DESIGN.md 4/C12"),
+    "C13": (
+        "exhaustive enumeration of source circuits (export) and of tket command lists (import) up to the "
+        "bound; the real to_tk/from_tk/get_counts/eval(backend) replayed against an exact simulator of the "
+        "tket command list and an independent classical-quantum reference",
+        "Export: every circuit up to the depth/width bound over the exportable alphabet (the universe is "
+        "prefix closed, so the register bookkeeping is exercised at every intermediate layer), a directed "
+        "family (prepare / post-select / measure in the middle, then a gate across it) and a tomography "
+        "family (gates observed in the X, Y and Z bases): the exported tket circuit is run on the exact "
+        "simulator and post-processed as documented (post-selection, scalar, post-processing) and must give "
+        "the distribution of the circuit's own mixed evaluation (== the reference); the same through "
+        "get_counts/eval with an exact backend, in batches, and after re-import. Import: every tket circuit "
+        "over the supported ops up to the bound: from_tk(t) is well-typed, and both its output distribution "
+        "and the qubit state before the closing discards equal the simulation of t.",
+        "Trusted: pytket get_commands/Op.get_unitary, mc/tketsim.py, mc/qref.py. NotImplementedError is a "
+        "refusal. Bounds and strides in the evidence.",
+        "DESIGN.md 4/C13"),
 }
 
 PENDING_REASON = ("check not built yet in this session (planned: bounded exhaustive exploration as in "
